@@ -299,7 +299,12 @@ def _r3(chk, repo):
     chk.add("C03-R3", f"{model.qual}.gradient/check-dominates", ok, site(repo, gfn), "_check_gradient_can_be_computed dominates the raw gradient call",
             "the raw gradient operator can be reached without _check_gradient_can_be_computed", gfn)
     cfn = repo.method(model, "_check_gradient_can_be_computed")[1]
-    cg = CFG(cfn)
+    from .common import canon_fn, views, stmts, match
+    from ..flow import Expander
+    from ..pattern import norm as pn
+    cfn_v = canon_fn(repo, model, cfn, 1)
+    ex = Expander(cfn_v)
+    cg = ex.cfg
     want = {
         "no-gradient": lambda t: "self._gradient_func is None" in t,
         "range-geometry": lambda t: "self.range_geometry" in t and "_get_identity_geometries" in t,
@@ -307,7 +312,7 @@ def _r3(chk, repo):
         "domain-has-gradient": lambda t: "hasattr(self.domain_geometry, 'gradient')" in t,
     }
     for key, pred in want.items():
-        ts = [t for t in cg.tests() if pred(unparse(t.ast))]
+        ts = [t for t in cg.tests() if pred(unparse(ex.expand(t.ast, t)))]      # locals in the test are replaced by their definitions
         ok = False
         for t in ts:
             # one out-edge of the test leads (possibly through further tests of the same condition) only to a raise
@@ -324,11 +329,28 @@ def _r3(chk, repo):
         chk.add("C03-R3", f"{model.qual}._check_gradient_can_be_computed/{key}", ok, site(repo, cfn),
                 f"refusal on `{key}` present", f"the refusal for `{key}` is missing from _check_gradient_can_be_computed", cfn)
     # geometry.gradient result is parameters: grad_is_par = True on that branch and passed to _2par
-    txt = unparse(gfn)
-    ok = "grad = self.domain_geometry.gradient(grad, wrt_par)" in txt and "grad_is_par = True" in txt and "is_par=grad_is_par" in txt
-    gn = [n for n in g.nodes if n.ast is not None and unparse(n.ast) == "grad_is_par = True"]
-    ok = ok and bool(gn) and any("hasattr(self.domain_geometry, 'gradient')" in unparse(t.ast) and lab == "T" for t, lab in g.guards_of(gn[0]))
-    chk.add("C03-R3", f"{model.qual}.gradient/geometry-chain-rule", ok, site(repo, gfn),
+    gv = canon_fn(repo, model, gfn, 1)
+    exg = Expander(gv)
+    gg = exg.cfg
+    HAS = "hasattr(self.domain_geometry, 'gradient')"
+    app = [n for n in gg.nodes if n.kind == "stmt" and isinstance(n.ast, ast.Assign) and isinstance(n.ast.value, ast.Call)
+           and call_name(n.ast.value) == "self.domain_geometry.gradient" and len(n.ast.value.args) == 2]
+    conv = [(n, c) for n in gg.nodes if n.ast is not None and n.kind in ("stmt", "return") for c in ast.walk(n.ast)
+            if isinstance(c, ast.Call) and call_name(c) == "self._2par" and any(k.arg == "is_par" for k in c.keywords)]
+    gname = path_of(app[0].ast.targets[0]) if app else None
+    conv = [(n, c) for n, c in conv if c.args and path_of(c.args[0]) == gname]
+    rec = bool(app) and bool(conv)
+    ok = rec and len(app) == 1 and any(HAS in unparse(exg.expand(t.ast, t)) and lab == "T" for t, lab in gg.guards_of(app[0]))
+    if ok:
+        # the flag handed to _2par says "parameters" exactly on the paths through the geometry's gradient
+        n2, c2 = conv[0]
+        flag = [k.value for k in c2.keywords if k.arg == "is_par"][0]
+        ftxt = unparse(exg.expand(flag, n2))
+        defs = exg.defs(n2, flag.id) if isinstance(flag, ast.Name) else []
+        dvals = sorted({unparse(rhs) for d, rhs in defs if rhs is not None})
+        true_defs = [d for d, rhs in defs if rhs is not None and unparse(rhs) == "True"]
+        ok = ftxt == HAS or (dvals == ["False", "True"] and all(any(HAS in unparse(exg.expand(t.ast, t)) and lab == "T" for t, lab in gg.guards_of(d)) for d in true_defs))
+    chk.decide("C03-R3", f"{model.qual}.gradient/geometry-chain-rule", ok, rec, site(repo, gfn),
             "domain_geometry.gradient(grad, wrt_par) result flagged as parameters (not converted by fun2par again)",
             "the geometry's gradient is not applied to the raw gradient at the parameter point, or its result is converted again", gfn)
     # Posterior: sum rule at one argument
@@ -336,25 +358,28 @@ def _r3(chk, repo):
     pg = repo.method(post, "_gradient")[1]
     x = func_params(pg)[1]
     rets = [n for n in ast.walk(pg) if isinstance(n, ast.Return)]
-    ok = len(rets) == 1 and unparse(rets[0].value).replace(" ", "") in (f"self.likelihood.gradient({x})+self.prior.gradient({x})", f"self.prior.gradient({x})+self.likelihood.gradient({x})")
+    V = views(repo, post, pg)
+    ok = len(rets) == 1 and any(w in V for w in (f"return self.likelihood.gradient({x})+self.prior.gradient({x})", f"return self.prior.gradient({x})+self.likelihood.gradient({x})"))
     chk.add("C03-R3", f"{post.qual}._gradient/sum-rule", ok, site(repo, pg), "likelihood.gradient(x) + prior.gradient(x)",
             f"posterior gradient is `{unparse(rets[0].value) if rets else '?'}`, not the sum of both component gradients at the same point", pg)
     lp = repo.method(post, "logpdf")[1]
     rets = [n for n in ast.walk(lp) if isinstance(n, ast.Return)]
-    ok = len(rets) == 1 and unparse(rets[0].value).replace(" ", "") == "self.likelihood.logd(*args,**kwargs)+self.prior.logd(*args,**kwargs)"
+    V = views(repo, post, lp)
+    ok = len(rets) == 1 and any(w in V for w in ("return self.likelihood.logd(*args,**kwargs)+self.prior.logd(*args,**kwargs)", "return self.prior.logd(*args,**kwargs)+self.likelihood.logd(*args,**kwargs)"))
     chk.add("C03-R3", f"{post.qual}.logpdf/sum", ok, site(repo, lp), "likelihood.logd + prior.logd at the same arguments",
             "posterior log-density is not likelihood.logd + prior.logd", lp)
     mlp = repo.cls("cuqi/distribution/_joint_distribution.py:MultipleLikelihoodPosterior")
     mg = repo.method(mlp, "gradient")[1]
     rets = [n for n in ast.walk(mg) if isinstance(n, ast.Return)]
-    ok = len(rets) == 1 and unparse(rets[0].value).replace(" ", "") == "sum((density.gradient(*args,**kwargs)fordensityinself._densities))"
+    V = views(repo, mlp, mg)
+    ok = len(rets) == 1 and any(w in V for w in ("return sum((_k0.gradient(*args,**kwargs) for _k0 in self._densities))", "return sum([_k0.gradient(*args,**kwargs) for _k0 in self._densities])"))
     chk.add("C03-R3", f"{mlp.qual}.gradient/sum-rule", ok, site(repo, mg), "sum of the gradients of all densities",
             f"multiple-likelihood gradient is `{unparse(rets[0].value) if rets else '?'}`", mg)
     # Likelihood gradient is the distribution's gradient at the data
     lk = repo.cls("cuqi/likelihood/_likelihood.py:Likelihood")
     lg = repo.method(lk, "_gradient")[1]
     rets = [n for n in ast.walk(lg) if isinstance(n, ast.Return)]
-    ok = len(rets) == 1 and unparse(rets[0].value).replace(" ", "") == "self.distribution.gradient(self.data,*args,**kwargs)"
+    ok = len(rets) == 1 and "return self.distribution.gradient(self.data,*args,**kwargs)" in views(repo, lk, lg)
     chk.add("C03-R3", f"{lk.qual}._gradient", ok, site(repo, lg), "distribution.gradient(data, *args)", "likelihood gradient is not the distribution's gradient at the data", lg)
 
 
@@ -441,11 +466,12 @@ def _r5(chk, repo):
     chk.add("C03-R5", f"{dens.qual}.gradient", ok, site(repo, gfn), "FD_enabled -> approx_gradient(self.logd, ..., epsilon=self.FD_epsilon); else self._gradient",
             "the finite-difference branch does not differentiate self.logd under FD_enabled, or the analytic branch is not its complement", gfn)
     ag = repo.func("cuqi/utilities/_utilities.py:approx_gradient")
-    f = func_params(ag)[0]
-    txt = unparse(ag).replace(" ", "")
-    ok = f"({f}(x_plus_eps)-func_x)/epsilon" in txt and f"func_x={f}(x)" in txt and "eps_vec[i]=epsilon" in txt and "eps_vec[i]=0.0" in txt \
-        and "x_plus_eps=x+eps_vec" in txt
-    chk.add("C03-R5", "cuqi/utilities/_utilities.py:approx_gradient", ok, site(repo, ag), "forward difference (f(x+eps e_i) - f(x))/eps per component, perturbation reset",
+    from .common import match, stmts
+    f, x, eps = func_params(ag)[:3]
+    b = match(repo, None, ag, [f"$g={x}*0.0", f"$e={x}*0.0", f"$fx={f}({x})", f"for: $i : range(infer_len({x}))", f"$e[$i]={eps}",
+                               f"$g[$i]=({f}({x}+$e)-$fx)/{eps}", "$e[$i]=0.0", "return $g"])
+    rec = any("[" in t and f"{f}(" in t and t.endswith(f"/{eps}") for t, _ in stmts(repo, None, ag))     # landmark: a difference quotient is stored per component
+    chk.decide("C03-R5", "cuqi/utilities/_utilities.py:approx_gradient", b is not None, rec, site(repo, ag), "forward difference (f(x+eps e_i) - f(x))/eps per component, perturbation reset",
             "approx_gradient is not the component-wise forward difference of its function argument", ag)
     lk = repo.cls("cuqi/likelihood/_likelihood.py:Likelihood")
     for name, want in (("enable_FD", "self.distribution.enable_FD(epsilon)"), ("disable_FD", "self.distribution.disable_FD()")):
